@@ -77,7 +77,8 @@ pub fn in_region(p: usize) -> bool {
 pub enum Answer {
     /// grant at the least-aligned legal base (valuation == log2(align))
     Default,
-    /// grant at a base whose 2-adic valuation is exactly `v` (clamped up to log2(align))
+    /// grant at a base whose 2-adic valuation is exactly `v` (clamped up to log2(align)); for v < 13 the
+    /// base is congruent to 2^v modulo 8192
     GrantV(u8),
     Refuse,
 }
@@ -311,11 +312,19 @@ impl ExecEnv {
             let slab = &mut self.slabs[arena];
             let start = slab.base + slab.cursor + REDZONE;
             let unit = 1usize << v;
-            let mut addr = (start + unit - 1) & !(unit - 1);
-            if addr & unit == 0 {
-                // valuation would be > v: step to the next odd multiple of 2^v
-                addr += unit;
-            }
+            let addr = if v < 13 {
+                // canonical placement: the low 13 bits of the base are exactly 2^v, so everything the
+                // crate's arithmetic can see of the base (alignments up to 4096) is fixed by the answer
+                let r = unit;
+                ((start.saturating_sub(r) + 8191) & !8191) + r
+            } else {
+                let mut a = (start + unit - 1) & !(unit - 1);
+                if a & unit == 0 {
+                    // valuation would be > v: step to the next odd multiple of 2^v
+                    a += unit;
+                }
+                a
+            };
             let end = addr + size + REDZONE;
             if end <= slab.base + slab.size && size > 0 {
                 // fill red zones (everything between the previous block and this one, and after)
